@@ -54,7 +54,7 @@ def build_harness():
         shutil.copy(os.path.join(REPO, 'Cargo.lock'), lock)
     for prof in ('dev', 'release'):
         cmd = ['cargo', 'build', '--offline'] + (['--release'] if prof == 'release' else [])
-        r = run(cmd, cwd=os.path.join(VERIF, 'harness'), env={'CARGO_TARGET_DIR': TARGET})
+        r = run(cmd, cwd=os.path.join(VERIF, 'harness'), env={'CARGO_TARGET_DIR': TARGET, 'RUSTFLAGS': '--cfg softposit_verif'})
         if r.returncode != 0:
             raise BuildError('harness build (%s) failed:\n%s' % (prof, r.stdout[-4000:]))
     return {'dev': os.path.join(TARGET, 'debug/verif_harness'), 'release': os.path.join(TARGET, 'release/verif_harness')}
